@@ -229,7 +229,7 @@ def main(argv=None):
                 finding_sig(f).encode()).hexdigest()[:10])
             path = os.path.join(REPLAY_DIR, name)
             with open(path, 'w') as fh:
-                json.dump(rp, fh, indent=1, sort_keys=True, default=str)
+                json.dump(rp, fh, indent=1, default=str)
             ok, out = fresh_replay(path)
             if not ok:
                 harness_errors.append(
